@@ -1,7 +1,7 @@
 //! C01 — no in-contract sequence of API calls can crash the engine.
 
 use crate::driver::{keys, Ctx, Opts, PanicInfo, Sandbox};
-use crate::gen::{self, AbsOp, Ev, Interp, OpWeights};
+use crate::gen::{self, SelPick, AbsOp, Ev, Interp, OpWeights};
 use crate::runner::{hash_of, Failure, Run, Stats, Tier};
 use proptest::prelude::*;
 use serde_json::{json, Value};
@@ -509,7 +509,80 @@ fn update_engine_under_file_transitions(run: &Run) {
     run.require_label("file-transition-sequences", 300);
 }
 
+/// "update-engine while idle" between two words, changing ONE thing: what the first word left behind (a non-zero
+/// preselection, a learned choice on display, a waiting sign that was discarded, a list that will not be rebuilt)
+/// meets a configuration in which one option differs.  first word x how it ends x the single change x second word,
+/// then every kind of call on the second word (each key, backspace, commit of the first / last / preselected index).
+fn flip_between_words(run: &Run) {
+    let firsts: [&[&str]; 3] = [&[";)", "ami", "a:", "\"kotha\"", "sesh.", "x`", "k[", "rri"], &["k[", "vmi", ";)", "k/", "[", "\"k\"", "k>a", "!a"], &["k[", "krZ", "[k", "k/Z", "vmi", ";)", "[", "k>"]];
+    let seconds: [&[&str]; 3] = [&["a", ":)", "ami.", "k"], &["k", "[k", ";)", "vmi"], &["k", "[k", "rZ", ";)"]];
+    let mut items = vec![];
+    for layout in 0..3usize {
+        for oi in 0..3usize {
+            for fi in 0..firsts[layout].len() {
+                for term in 0..5u8 {
+                    items.push((layout, oi, fi, term));
+                }
+            }
+        }
+    }
+    run.exhaustive(
+        "one-option-changed-by-update-engine-between-two-words",
+        &items,
+        |_| (),
+        |&(layout, oi, fi, term), st, _| {
+            let opts = [Opts::from_bits(layout, 0b110), Opts::from_bits(layout, 0x7ff & !(1 << 9)), Opts::from_bits(layout, 0b111 | (1 << 8) | (1 << 10))][oi];
+            let first = firsts[layout][fi];
+            for bit in 0u8..13 {
+                for second in seconds[layout] {
+                    for last_call in 0..3u8 {
+                        let sb = Sandbox::new();
+                        let mut it = Interp::new(opts, &sb).map_err(|p| Failure::new(panic_kind(&p.info), format!("construction: {}", p.info), json!({"opts": opts.letters()})))?;
+                        let mut ops: Vec<AbsOp> = vec![];
+                        let text = |t: &str| AbsOp::Text { keys: t.chars().map(|c| (keys().code_for(c), 0)).collect(), sel: SelPick::FrontEnd };
+                        match term {
+                            // a learned non-first choice, shown again, then taken as it is
+                            4 => ops.extend([text(first), AbsOp::Commit { frac: 0xffff }, text(first), AbsOp::Commit { frac: 0x8000 }]),
+                            _ => ops.push(text(first)),
+                        }
+                        ops.push(match term {
+                            0 => AbsOp::Commit { frac: 0 },
+                            1 => AbsOp::Commit { frac: 0xffff },
+                            2 => AbsOp::Finish,
+                            3 => AbsOp::CtrlBackspace,
+                            _ => AbsOp::Finish,
+                        });
+                        ops.push(AbsOp::Flip { bit });
+                        ops.push(text(second));
+                        ops.push(match last_call {
+                            0 => AbsOp::Commit { frac: 0 },
+                            1 => AbsOp::Commit { frac: 0xffff },
+                            _ => AbsOp::Backspace,
+                        });
+                        ops.push(text(second));
+                        ops.push(AbsOp::Commit { frac: 0x8000 });
+                        st.evals(1);
+                        for op in &ops {
+                            if let Err(p) = it.run_op(op, &mut |_| Ok(())) {
+                                return Err(Failure::new(panic_kind(&p.info), format!("event #{} ({}) : {}", p.at, gen::ev_to_string(&it.trace[p.at]), p.info), gen::trace_json(&opts, &it.trace)));
+                            }
+                        }
+                        gen::journal::end();
+                        if bit == 1 || bit == 2 {
+                            let t = it.trace.clone();
+                            st.nontrivial(hash_of(&(opts.letters(), &t)), || json!({"opts": opts.letters(), "events": t.iter().map(gen::ev_to_string).collect::<Vec<_>>()}));
+                        }
+                    }
+                }
+            }
+            st.label("single-change-between-two-words");
+            Ok(())
+        },
+    );
+}
+
 pub fn run(run: &Run) {
+    flip_between_words(run);
     long_words(run);
     sweep(run);
     fixed_exhaustive(run);
